@@ -24,6 +24,8 @@ fn main() {
     // wide types: digit counts of 64 and above (a threshold at which big-number libraries commonly
     // switch conversion algorithm)
     cfg!(&mut run, d8, 64, BigRef);
+    // the widest configurations of the quantifier (8192 bits), small plan
+    vcore::huge_configs!(cfg, &mut run);
     if run.tier == Tier::Thorough {
         cfg!(&mut run, d16, 64, BigRef);
         cfg!(&mut run, d32, 65, BigRef);
